@@ -70,6 +70,8 @@ func c03Alphabet() []sym {
 		{"OPENDIR dir", func(P string) wire.Req { return wire.P(wire.OpOpenDir, "/dir") }},
 		{"OPENDIR file", func(P string) wire.Req { return wire.P(wire.OpOpenDir, "/file.bin") }},
 		{"OPENDIR missing", func(P string) wire.Req { return wire.P(wire.OpOpenDir, "/nodir") }},
+		{"OPENDIR ***DVD***/dir", func(P string) wire.Req { return wire.P(wire.OpOpenDir, "/***DVD***/dir") }},
+		{"OPENDIR ***DVD***/dir/sub", func(P string) wire.Req { return wire.P(wire.OpOpenDir, "/***DVD***/dir/sub") }},
 		{"READDIR", func(P string) wire.Req { return wire.Bare(wire.OpReadDir) }},
 		{"RDE", func(P string) wire.Req { return wire.Bare(wire.OpRDE) }},
 		{"RDE2", func(P string) wire.Req { return wire.Bare(wire.OpRDE2) }},
@@ -103,7 +105,7 @@ var privSeq atomic.Int64
 
 func C03(e *Env) {
 	run := e.Run
-	run.Rule = "cases: all sequences of length<=k over a 33-symbol request alphabet in both write modes (bounded-exhaustive) + random sequences up to length 60 + truncation matrix, each replayed lock-step under the reference model, then re-delivered pipelined and in 1-byte sends and compared (times masked); non-trivial = distinct (model state, opcode, outcome) triple reached"
+	run.Rule = "cases: all sequences of length<=k over a 38-symbol request alphabet in both write modes (bounded-exhaustive) + random sequences up to length 60 + truncation matrix, each replayed lock-step under the reference model, then re-delivered pipelined and in 1-byte sends and compared (times masked); non-trivial = distinct (model state, opcode, outcome) triple reached"
 	root := e.Dir("W/root")
 	must(tree.MaterializeRoot(root, sharedTree()))
 	procs := map[bool]*host.Proc{}
@@ -149,6 +151,54 @@ func C03(e *Env) {
 		}
 		cases = append(cases, c03Case{kind: "random", write: rng.Intn(2) == 0, syms: s, cut: -1, chunk: []int{0, 0, 1, 7}[rng.Intn(4)]})
 	}
+	// scripted histories: interactions between the read, write and directory states on the same
+	// objects that are longer than the exhaustive bound and too specific for the random part
+	byName := map[string]int{}
+	for i, a := range alpha {
+		byName[a.name] = i
+	}
+	for _, sc := range [][]string{
+		{"OPEN private old", "CREATE existing", "READ 5@0"},
+		{"OPEN private old", "CREATE existing", "WRITE 5", "READ 5@0", "READCRIT 7@10"},
+		{"OPEN private old", "READ 5@0", "CREATE existing", "WRITE 70000", "READ 5@0", "READ 10@size-2", "READCD 0,1"},
+		{"OPEN private old", "DELETE file", "READ 5@0", "STAT missing", "OPEN private old"},
+		{"OPEN private new", "CREATE new", "WRITE 5", "OPEN private new", "READ 5@0", "READ 0@0"},
+		{"CREATE new", "WRITE 5", "OPEN private new", "READ 5@0", "WRITE 5", "READ 10@size-2", "OPEN private new", "READ 10@size-2"},
+		{"OPENDIR private", "CREATE new", "READDIR", "RDE", "RDE2"},
+		{"OPENDIR private", "MKDIR new", "RDE", "RDE", "RDE", "RDE", "RDE", "RDE"},
+		{"OPENDIR private", "RDE2", "DELETE file", "RMDIR empty", "RDE2", "RDE2", "RDE2", "RDE2"},
+		{"OPENDIR private", "RDE", "OPENDIR missing", "RDE", "OPENDIR private", "READDIR", "READDIR"},
+		{"OPEN file", "OPENDIR ***DVD***/dir/sub", "RDE", "READ 5@0", "STAT file"},
+		{"OPENDIR dir", "OPENDIR ***DVD***/dir", "RDE2", "READDIR", "OPENDIR dir", "RDE"},
+		{"OPENDIR dir", "OPENDIR file", "RDE", "READDIR", "OPENDIR dir", "READDIR"},
+		{"OPEN ***DVD***/dir", "READ 5@0", "OPENDIR ***DVD***/dir/sub", "READDIR", "READ 5@0", "READCRIT 7@10"},
+		{"CREATE new", "WRITE 70000", "CREATE existing", "WRITE 5", "CREATE dir", "WRITE 5", "OPEN private new", "READ 5@0"},
+		{"CREATE new", "OPEN CLOSEFILE", "WRITE 5", "OPEN private new", "READ 5@0"},
+		{"OPEN file", "READ 5@0", "OPEN CLOSEFILE", "READ 5@0"},
+		{"OPEN file", "OPEN missing", "READ 5@0"},
+		{"OPEN file", "OPEN dir", "READ 5@0"},
+		{"OPEN file", "READCD 0,1", "OPEN private old", "READCD 0,1", "READCD 1,0", "READ 5@0"},
+		{"OPENDIR emptyish", "RDE"},
+	} {
+		var syms []int
+		ok := true
+		for _, n := range sc {
+			i, found := byName[n]
+			if !found {
+				ok = false
+				break
+			}
+			syms = append(syms, i)
+		}
+		if !ok {
+			continue
+		}
+		for _, aw := range []bool{false, true} {
+			for _, ch := range []int{0, 1} {
+				cases = append(cases, c03Case{kind: "scripted", write: aw, syms: syms, cut: -1, chunk: ch})
+			}
+		}
+	}
 	run.Obs("exhaustive_sequences", nExh)
 	run.Obs("max_exhaustive_length", maxLen)
 
@@ -188,6 +238,9 @@ func C03(e *Env) {
 			}
 			judgeModelFail(e, res.Fail, reqs, res.FailAt, "", res.Fail.Feature, res.Fail.Detail, witness)
 			return
+		}
+		if cs.kind == "scripted" && os.Getenv("VERIF_DEBUG_SCRIPTED") != "" {
+			fmt.Printf("SCRIPTED aw=%v chunk=%d %v\n  %v\n", cs.write, cs.chunk, names, res.Oracle.Trace)
 		}
 		coverCh <- res.Oracle.Cover
 		atomic.AddInt64(&bytesCompared, res.Oracle.BytesCompared)
